@@ -194,6 +194,12 @@ func ServeMain(maxLineLength int, keyLine string) int {
 	WriteAuthorizedKeys("alice", keyLine+"\n")
 	config.Server.MaxLineLength = maxLineLength
 	ts := StartServer(10)
+	// the server's public host key (for harnesses that prepare known_hosts files)
+	if b, err := os.ReadFile(config.Server.HostKeyFile); err == nil {
+		if k, err := ssh.ParsePrivateKey(b); err == nil {
+			fmt.Printf("HOSTKEY %s", ssh.MarshalAuthorizedKey(k.PublicKey()))
+		}
+	}
 	fmt.Printf("ADDR %s\n", ts.Addr)
 	io.Copy(io.Discard, os.Stdin)
 	ts.Stop()
@@ -276,6 +282,9 @@ func c01nSeparateServer(c *core.Ctx) {
 		}
 		rd := bufio.NewReader(stdout)
 		line, err := rd.ReadString('\n')
+		if strings.HasPrefix(line, "HOSTKEY ") {
+			line, err = rd.ReadString('\n')
+		}
 		if err != nil || !strings.HasPrefix(line, "ADDR ") {
 			stop()
 			c.Res.HarnessErr = fmt.Sprintf("the server process did not report its address: %q %v", line, err)
